@@ -157,12 +157,6 @@ impl Session {
                 }
             }
 
-            // If ignore_mac is false, we're dealing with Class A downlink and
-            // therefore can clear uplinks which need to be retained for acknowledgment
-            if !ignore_mac {
-                self.uplink.clear_mac_commands(false);
-            }
-
             #[cfg(feature = "certification")]
             if let Some(port) = encrypted_data.f_port()
                 && port > 0
@@ -182,6 +176,13 @@ impl Session {
             let nwk_crypto = DefaultCrypto::new(self.nwkskey.inner());
             let app_crypto = DefaultCrypto::new(self.appskey.inner());
             if encrypted_data.validate_mic(&nwk_crypto, fcnt) {
+                // If ignore_mac is false, we're dealing with an authentic Class A downlink
+                // and therefore can clear the answers which had to be retained until the
+                // network has seen them. (Only now: a frame that fails its MIC or freshness
+                // check must not have any effect.)
+                if !ignore_mac {
+                    self.uplink.clear_mac_commands(false);
+                }
                 self.fcnt_down = Some(fcnt);
                 // Any accepted downlink confirms connectivity for ADR.
                 self.adr_ack_cnt = 0;
